@@ -334,3 +334,17 @@ func SameItem(orig, got interface{}) bool {
 	}
 	return reflect.DeepEqual(orig, got)
 }
+
+// NoAddressText rewrites an item so that its text form does not depend on a
+// memory address (a matrix item with no text method prints as a struct holding
+// a pointer), for oracles that compare two independently built tables.
+func NoAddressText(it Item) Item {
+	if it.K == "if" && it.M&7 == 0 {
+		it.M |= MString
+	}
+	if it.In != nil {
+		in := NoAddressText(*it.In)
+		it.In = &in
+	}
+	return it
+}
